@@ -6,9 +6,9 @@
    lexer for every token the lexer emits, adjacent tokens cannot fuse), the re-flow keeps
    paragraphs and is a fixed point. *)
 From Coq Require Import String List NArith ZArith Bool.
-From J5V.lib Require Import Text Outcome.
+From J5V.lib Require Import Text Outcome GoExpr.
 From J5V.model Require Import BclLexer BclParser BclFmt BclCli.
-From J5V.proofs Require Import BclPosProofs BclLexerProofs BclParserProofs BclFmtProofs BclFmtLitProofs BclReflowProofs BclLexLitProofs BclFmtSeqProofs BclFragWfProofs BclFmtLineProofs BclWalkBackProofs BclFmtFileProofs BclDescGapProofs BclFmtRoundProofs BclFmtIdemProofs BclDocProofs BclUtf8Proofs BclRuneClosedProofs BclFmtBytesProofs BclDocBytesProofs BclCliProofs BclIdentExactProofs.
+From J5V.proofs Require Import BclPosProofs BclLexerProofs BclParserProofs BclFmtProofs BclFmtLitProofs BclReflowProofs BclLexLitProofs BclFmtSeqProofs BclFragWfProofs BclFmtLineProofs BclWalkBackProofs BclFmtFileProofs BclDescGapProofs BclFmtRoundProofs BclFmtIdemProofs BclDocProofs BclUtf8Proofs BclRuneClosedProofs BclFmtBytesProofs BclDocBytesProofs BclCliProofs BclIdentExactProofs BclFmtGenProofs BclFmtGenAllProofs BclFmtGenAll2Proofs.
 (* after the proofs: doc_of / value_doc / tag_doc below are the declarative ones of model/BclDoc.v *)
 From J5V.model Require Import BclDoc.
 Import ListNotations.
@@ -304,6 +304,25 @@ Theorem C09_cli_write_keeps_documents : forall t, NoDup (map fst t) ->
       map doc_of fs' = map doc_of fs /\ fmt_bytes d' = Ok d'.
 Proof. exact fmt_dir_write_keeps_documents. Qed.
 Print Assumptions C09_cli_write_keeps_documents.
+
+(* ---- the model is the code (tie) ---------------------------------------------------------------------- *)
+(* tokenSource: for every token type and every literal, the model's text is the arm of the Go switch (gen/BclFmtGen.v:
+   the returned expressions as lib/GoExpr terms, the stringEscaper pairs), evaluated; Fmt's loop likewise *)
+Theorem C09_token_source_is_the_code : forall t l,
+  VS (token_source (mkTok t l pos0 pos0)) = ev [("tok.Lit"%string, VS l)] (arm_for t).
+Proof. exact token_source_all. Qed.
+Print Assumptions C09_token_source_is_the_code.
+
+Theorem C09_fmt_loop_is_the_code : forall ds,
+  fmt_join_tab ds 0 (ev [] (assign_of "fmt.go:Fmt"%string 1)) = fmt_join ds true (-1).
+Proof. exact fmt_runes_join_all. Qed.
+Print Assumptions C09_fmt_loop_is_the_code.
+
+Theorem C09_description_layout_is_the_code : forall indent d,
+  multi_tab indent (dsstart d) (dsend d)
+    (match reformat_description (dvalue d) (width_tab indent) with [] => [[]] | o => o end) = Some (description_diff indent d).
+Proof. exact description_diff_all. Qed.
+Print Assumptions C09_description_layout_is_the_code.
 
 (* non-vacuity: a string with every escapable rune, a regex with slashes, nested array, trailing
    comment, description: accepted, formatted, the output accepted with the same document, and a
